@@ -1,6 +1,6 @@
 (* Corr.v — helpers shared by the correspondence checkers (executable, no proofs):
    structural comparison of observed vs. modelled results and table-driven oracles. *)
-From Coq Require Import SpecFloat.
+From Coq Require Export SpecFloat.
 From LV Require Export Base Value.
 
 Definition sf_eqb (a b : spec_float) : bool :=
